@@ -289,12 +289,21 @@ pub fn g_interp(w: &RWorld, rng: &mut Rng, idx: u64) -> (Input, &'static str) {
         let (spk, sig, wit, _) = commit_script(w, rng, &sc, kind, stack);
         return (Input::Interp { spk, sig, wit, seq, lt }, label);
     }
+    // ---- large counts in front of NUMEQUAL / CHECKMULTISIG / EQUAL, committed in p2wsh, p2sh and p2tr
+    let num_base = 12 + n_deep + 24;
+    if idx >= num_base && idx < num_base + 3 * N_NUM_SCRIPTS as u64 {
+        let j = (idx - num_base) as usize;
+        let (kind, ctx) = [(0u64, 2usize), (2, 1), (4, 3)][j / N_NUM_SCRIPTS];
+        let (sc, label) = num_script(w, ctx, j % N_NUM_SCRIPTS);
+        let (spk, sig, wit, _) = commit_script(w, rng, &sc, kind, vec![vec![]]);
+        return (Input::Interp { spk, sig, wit, seq, lt }, label);
+    }
     // ---- SHORT and ragged witnesses per fragment kind (the dissatisfaction arms are where
     // `len - k` style underflows hide): every directed script x every stack of length 0..3 over
     // {empty, 01, junk, signature} in every position, and homogeneous stacks of length 4..9 over
     // {empty, 01, junk, signature, key, preimage}; then the homogeneous ones again through
     // p2sh-p2wsh, p2sh and bare
-    let short_base = 12 + n_deep + 24;
+    let short_base = num_base + 3 * N_NUM_SCRIPTS as u64;
     let n_scripts = (w.directed[0].len() + w.directed[1].len()) as u64;
     if idx >= short_base && idx < short_base + n_scripts * SHORT_PER {
         let j = idx - short_base;
